@@ -118,6 +118,13 @@ func registerSyncModels() {
 	}
 	models["(*sync.Pool).Get"] = func(m *Machine, caller *frame, fn *ssa.Function, a []value) value {
 		c := m.derefPtr(a[0])
+		if m.poolReuse {
+			if items := m.pools[c]; len(items) > 0 {
+				v := items[len(items)-1]
+				m.pools[c] = items[:len(items)-1]
+				return v
+			}
+		}
 		st := (*c).(structure)
 		pt := mustDeref(fn.Signature.Recv().Type())
 		if i := fieldIndex(pt, "New"); i >= 0 {
@@ -127,7 +134,13 @@ func registerSyncModels() {
 		}
 		return iface{}
 	}
-	models["(*sync.Pool).Put"] = noop
+	models["(*sync.Pool).Put"] = func(m *Machine, _ *frame, _ *ssa.Function, a []value) value {
+		if m.poolReuse {
+			c := m.derefPtr(a[0])
+			m.pools[c] = append(m.pools[c], a[1])
+		}
+		return nil
+	}
 	models["(*sync/atomic.Value).Load"] = func(m *Machine, _ *frame, _ *ssa.Function, a []value) value {
 		c := m.derefPtr(a[0])
 		return (*c).(structure)[0]
@@ -277,7 +290,50 @@ func init() {
 			return func(m *Machine, _ *frame, _ *ssa.Function, a []value) value {
 				return m.tt.Const(64, uint64(len(xmapOf(m, a[0]).keys)))
 			}
+		case "LoadAndDelete":
+			return func(m *Machine, _ *frame, fn *ssa.Function, a []value) value {
+				mp := xmapOf(m, a[0])
+				if i := m.mapFind(mp, a[1]); i >= 0 {
+					v := copyVal(mp.vals[i])
+					mp.keys = append(mp.keys[:i:i], mp.keys[i+1:]...)
+					mp.vals = append(mp.vals[:i:i], mp.vals[i+1:]...)
+					return tuple{v, m.tt.Bool(true)}
+				}
+				return tuple{m.zero(fn.Signature.Results().At(0).Type()), m.tt.Bool(false)}
+			}
+		case "LoadOrStore":
+			return func(m *Machine, _ *frame, fn *ssa.Function, a []value) value {
+				mp := xmapOf(m, a[0])
+				if i := m.mapFind(mp, a[1]); i >= 0 {
+					return tuple{copyVal(mp.vals[i]), m.tt.Bool(true)}
+				}
+				mp.keys = append(mp.keys, copyVal(a[1]))
+				mp.vals = append(mp.vals, copyVal(a[2]))
+				return tuple{copyVal(a[2]), m.tt.Bool(false)}
+			}
+		case "Clear":
+			return func(m *Machine, _ *frame, _ *ssa.Function, a []value) value {
+				mp := xmapOf(m, a[0])
+				mp.keys, mp.vals = nil, nil
+				return nil
+			}
+		case "Range":
+			return func(m *Machine, caller *frame, _ *ssa.Function, a []value) value {
+				mp := xmapOf(m, a[0])
+				keys, vals := append([]value(nil), mp.keys...), append([]value(nil), mp.vals...)
+				for i := range keys {
+					r := m.call(caller, 0, a[1], []value{copyVal(keys[i]), copyVal(vals[i])})
+					if t, ok := r.(*Term); ok && !m.path.Branch(t, "MapOf.Range") {
+						break
+					}
+				}
+				return nil
+			}
 		}
-		return nil
+		// any other method would otherwise run the real lock-free internals over the opaque model
+		return func(m *Machine, _ *frame, fn *ssa.Function, a []value) value {
+			m.unsupported("xsync.MapOf method not modelled: " + fn.Name())
+			return nil
+		}
 	}})
 }
